@@ -1,6 +1,6 @@
 (* Wire-level entry point of the C18 model (JWK).  Member n carries the value 1000+n. *)
 From Coq Require Import List ZArith Bool.
-From IdV Require Import Lib.Wire Jose.Jwk.
+From IdV Require Import Lib.Wire Lib.Base64 Lib.Sha256 Jose.Jwk Jose.Thumbprint.
 Import ListNotations.
 Open Scope Z_scope.
 
@@ -58,6 +58,15 @@ Fixpoint c18_setters (fuel : nat) (ops : list Z) (k : jwk) : list Z :=
     end
   end.
 
+Fixpoint c18_take_members (n : nat) (l : list Z) : option (list (list N * list N)) :=
+  match n with
+  | O => Some []
+  | S m => match take_lp l with
+           | Some (name, r) => match take_lp r with
+                               | Some (v, r') => match c18_take_members m r' with Some ms => Some ((bytes_of name, bytes_of v) :: ms) | None => None end
+                               | None => None end
+           | None => None end
+  end.
 Definition c18_run (input : list Z) : list Z :=
   match input with
   | kind :: r =>
@@ -104,6 +113,18 @@ Definition c18_run (input : list Z) : list Z :=
           | CvOk k => 1 :: c18_describe k ++ put_lp (c18_json_members k)
           | CvErr => [0]
           | CvPanic => [-777]
+          end
+      | _ => ERR_DECODE
+      end
+    else if kind =? 4 then
+      (* byte-level thumbprint: declared kty, parameter family, n, (name, value)* as byte strings -> hash input text, base64url of its SHA-256 *)
+      match r with
+      | kty :: fam :: n :: r1 =>
+          match c18_take_members (Z.to_nat n) r1 with
+          | Some ms =>
+              let get (name : list N) := match find (fun nv => if list_eq_dec N.eq_dec (fst nv) name then true else false) ms with Some nv => snd nv | None => [] end in
+              put_lp (zs_of (thumb_text (c18_kty kty) (c18_kty fam) get)) ++ put_lp (zs_of (thumbprint_b64 (c18_kty kty) (c18_kty fam) get))
+          | None => ERR_DECODE
           end
       | _ => ERR_DECODE
       end
